@@ -166,5 +166,6 @@ Emit == (pc # "done" /\ pc' = "done") =>
                                    matcher |-> IF Ran THEN Matcher' ELSE "",
                                    want |-> IF Ran THEN WantLabel' ELSE FALSE,
                                    listmode |-> IF Ran THEN ListMode' ELSE FALSE,
+                                   hhconf |-> IF Ran THEN HhConflictLastIsh' ELSE FALSE,
                                    div |-> IF Ran THEN Divergences' ELSE {}])>>)
 =============================================================================
